@@ -1,0 +1,47 @@
+//go:build verif
+// +build verif
+
+package zset
+
+// VerifNode is one skiplist node as stored: key, score, height, per-level spans,
+// whether each forward pointer is nil, and the key of the backward node.
+type VerifNode struct {
+	Key      string
+	Score    SCORE
+	Value    []byte
+	Height   int
+	Spans    []int64
+	FwdKeys  []string
+	FwdNil   []bool
+	Backward string
+	BackNil  bool
+}
+
+// VerifDump returns header (index 0) followed by the level-0 chain, plus list metadata.
+func (ss *SortedSet) VerifDump() (nodes []VerifNode, level int, length int64, tailKey string, tailNil bool, dictLen int) {
+	dump := func(n *SortedSetNode) VerifNode {
+		v := VerifNode{Key: n.key, Score: n.score, Value: n.Value, Height: len(n.level)}
+		for _, l := range n.level {
+			v.Spans = append(v.Spans, l.span)
+			v.FwdNil = append(v.FwdNil, l.forward == nil)
+			if l.forward != nil {
+				v.FwdKeys = append(v.FwdKeys, l.forward.key)
+			} else {
+				v.FwdKeys = append(v.FwdKeys, "")
+			}
+		}
+		v.BackNil = n.backward == nil
+		if n.backward != nil {
+			v.Backward = n.backward.key
+		}
+		return v
+	}
+	for x := ss.header; x != nil; x = x.level[0].forward {
+		nodes = append(nodes, dump(x))
+	}
+	tailNil = ss.tail == nil
+	if ss.tail != nil {
+		tailKey = ss.tail.key
+	}
+	return nodes, ss.level, ss.length, tailKey, tailNil, len(ss.Dict)
+}
